@@ -1217,6 +1217,8 @@ fn shape(n_rules: usize, n_terms: usize) -> BoxedStrategy<(usize, Vec<Expr>)> {
         (r(), t()).prop_map(|(a, x)| (a, vec![Expr::Seq(vec![Expr::N(a), Expr::N(a)]), x, Expr::Empty])),
         // duplicated alternative
         (r(), t()).prop_map(|(a, x)| (a, vec![x.clone(), x])),
+        // a long bounded repetition of one terminal (the builder factors "at most n" differently from n = 12 on): A: t{m,m+d} x
+        (r(), t(), t(), 0u32..=3, 12u32..=19).prop_map(|(a, e, x, m, d)| (a, vec![Expr::Seq(vec![Expr::Rep(Box::new(e), m, Some(m + d)), x])])),
         // nullable chain: A: B C ; (B, C nullable elsewhere or not)
         (r(), r(), r(), t()).prop_map(|(a, b, c, x)| (a, vec![Expr::Seq(vec![Expr::Opt(Box::new(Expr::N(b))), Expr::Star(Box::new(Expr::N(c))), x])])),
         // mutual recursion: A: t B | t
